@@ -6,11 +6,15 @@
 (*                                                                         *)
 (* State: db = relation name |-> set of tuples, for every relation the     *)
 (* program object exposes (input, output, internal).  One action per API   *)
-(* call.  Calls that only read are self loops whose return value is a      *)
-(* parameter of the action, so that TLC's state graph (-dump dot,          *)
-(* actionlabels) carries the expected result on the edge:                  *)
-(*    Contains("path", <<1, 2>>, TRUE)   Size("path", 3)                   *)
-(*    Iterate("path", {<<1, 2>>, ..})    PrintAll({<<"path", {..}>>})      *)
+(* call.  Calls that only read are self loops; what they return is held in *)
+(* the derived variable obs (a function of db, evaluated by TLC):          *)
+(*    obs[r].n      what Relation::size() returns                          *)
+(*    obs[r].has[i] what Relation::contains(probe[r][i]) returns           *)
+(* and begin()..end() enumerates exactly db[r]; printAll / runAll write    *)
+(* db[r] of the output relations.  The parameters of all actions range     *)
+(* over constant sets, so TLC's state graph (-dump dot,actionlabels) names *)
+(* every edge by its call: Insert("e", <<1, 2>>), Contains("path", 3),     *)
+(* Size("path"), Iterate("path"), Run, PurgeInputRelations, ...            *)
 (*                                                                         *)
 (* Meaning of run(), read off the generated code (runFunction calls every  *)
 (* stratum; run() passes performIO = false, pruneImdtRels = false):        *)
@@ -23,9 +27,10 @@
 (*    so they are re-derived by every run (also after a purge);            *)
 (*  - inputs and intermediates are kept (CLEAR of a non-temporary relation *)
 (*    is emitted as `if (pruneImdtRels)`); running twice adds nothing.     *)
-(* runAll(in, out) = load the fact files into the inputs (on top of what   *)
-(* is there), evaluate, write the outputs, and clear every non-output      *)
-(* relation that some clause uses (it "expires", RelationSchedule.cpp).    *)
+(* runAll(in, out, performIO = true, pruneImdtRels = true) = load the fact *)
+(* files into the inputs (on top of what is there), evaluate, write the    *)
+(* outputs, and clear every non-output relation that some clause uses (it  *)
+(* "expires" in the last stratum reading it, RelationSchedule.cpp).        *)
 (*                                                                         *)
 (* `exact` says whether the property's text fixes the result of the last   *)
 (* evaluation: it does when evaluating from the current db gives the model *)
@@ -38,7 +43,8 @@
 (*                                                                         *)
 (* A program (DatalogData.Programs[i]) is a Datalog.tla program plus       *)
 (*   univ  : input relation |-> seq of tuples that Insert may add          *)
-(*   probe : relation |-> seq of tuples that Contains is asked about       *)
+(*   probe : relation |-> seq of tuples that Contains is asked about (by   *)
+(*           index)                                                        *)
 (*   files : input relation |-> seq of tuples in the fact file             *)
 (***************************************************************************)
 EXTENDS Integers, Sequences, FiniteSets, TLC, DatalogData
@@ -48,8 +54,9 @@ D == INSTANCE Datalog WITH pi <- 1, edb <- <<>>, I <- <<>>, si <- 0, iters <- <<
 
 VARIABLES prog,    \* index of the program (fixed along a behaviour)
           db,      \* relation |-> set of tuples held by the program object
-          exact    \* the last evaluation produced exactly the model of the inputs (see above)
-vars == <<prog, db, exact>>
+          exact,   \* the last evaluation produced exactly the model of the inputs (see above)
+          obs      \* what the reading calls return in this state (function of db)
+vars == <<prog, db, exact, obs>>
 
 P == Programs[prog]
 Rels == D!RelNames(P)
@@ -60,10 +67,18 @@ OutRels == {r \in Rels : IsOut(r)}
 IntRels == {r \in Rels : ~IsIn(r) /\ ~IsOut(r)}
 SeqSet(s) == {s[i] : i \in 1..Len(s)}
 Univ(r) == SeqSet(P.univ[r])
-Probe(r) == SeqSet(P.probe[r])
 Files(r) == SeqSet(P.files[r])
 \* relations read by some clause: they expire in some stratum and are cleared there when pruning is on
 Used == UNION {D!PosRels(P.clauses[i].body) \cup D!NegRels(P.clauses[i].body) : i \in 1..Len(P.clauses)}
+
+\* constant parameter spaces (over all programs; the actions guard what applies to the current one)
+AllRels == UNION {D!RelNames(Programs[i]) : i \in 1..Len(Programs)}
+AllIns == UNION {UNION {SeqSet(Programs[i].univ[r]) : r \in DOMAIN Programs[i].univ} : i \in 1..Len(Programs)}
+MaxProbes == CHOOSE n \in 0..64 : /\ \A i \in 1..Len(Programs) : \A r \in DOMAIN Programs[i].probe : Len(Programs[i].probe[r]) <= n
+                                  /\ \E i \in 1..Len(Programs) : \E r \in DOMAIN Programs[i].probe : Len(Programs[i].probe[r]) = n
+
+ObsOf(Pg, J) == [r \in D!RelNames(Pg) |->
+                   [n |-> Cardinality(J[r]), has |-> [i \in 1..Len(Pg.probe[r]) |-> Pg.probe[r][i] \in J[r]]]]
 
 \* ---- the pure parts ------------------------------------------------------
 Eval(J) == D!ModelFrom(P, J)                                   \* [I, o]: evaluate every stratum starting from J
@@ -72,47 +87,54 @@ Fresh(J) == D!ModelFrom(P, OnlyInputs(J))                       \* what a new ob
 Purged(J, S) == [r \in Rels |-> IF r \in S THEN {} ELSE J[r]]
 Loaded(J) == [r \in Rels |-> IF IsIn(r) THEN J[r] \cup Files(r) ELSE J[r]]
 Pruned(J) == Purged(J, {r \in Used : ~IsOut(r)})
-Outputs(J) == {<<r, J[r]>> : r \in OutRels}                     \* what printAll / runAll write, per output file
 
 \* ---- calls that change the object ----------------------------------------
-Insert(r, t) == /\ db' = [db EXCEPT ![r] = @ \cup {t}]
-                /\ UNCHANGED <<prog, exact>>
+\* (every action sets obs' = ObsOf(P, db'); the conjuncts are written out because TLC labels an edge of the state
+\* graph with the innermost operator that is an action)
 \* exact' : evaluating from J gave the model of J's inputs (trivially so when J holds nothing but inputs)
 ExactAfter(J, m) == IF OnlyInputs(J) = J THEN TRUE ELSE m.I = Fresh(J).I
+
+Insert(r, t) == /\ r \in InRels /\ t \in Univ(r)
+                /\ db' = [db EXCEPT ![r] = @ \cup {t}]
+                /\ obs' = ObsOf(P, db') /\ UNCHANGED <<prog, exact>>
 Run == LET m == Eval(db) IN
        /\ db' = m.I
        /\ exact' = ExactAfter(db, m)
-       /\ UNCHANGED prog
+       /\ obs' = ObsOf(P, db') /\ UNCHANGED prog
+\* runAll("", "", performIO = false, pruneImdtRels = true): the interface's default way to evaluate without files
+RunPrune == LET m == Eval(db) IN
+            /\ db' = Pruned(m.I)
+            /\ exact' = ExactAfter(db, m)
+            /\ obs' = ObsOf(P, db') /\ UNCHANGED prog
 LoadAll == /\ db' = Loaded(db)
-           /\ UNCHANGED <<prog, exact>>
-\* the output files written by the call hold the output relations of the state reached (outputs are never pruned)
+           /\ obs' = ObsOf(P, db') /\ UNCHANGED <<prog, exact>>
+\* runAll(in, out, true, true); the output files hold the output relations of the state reached (never pruned)
 RunAll == LET m == Eval(Loaded(db)) IN
           /\ db' = Pruned(m.I)
           /\ exact' = ExactAfter(Loaded(db), m)
-          /\ UNCHANGED prog
-PurgeInputRelations    == db' = Purged(db, InRels)  /\ UNCHANGED <<prog, exact>>
-PurgeOutputRelations   == db' = Purged(db, OutRels) /\ UNCHANGED <<prog, exact>>
-PurgeInternalRelations == db' = Purged(db, IntRels) /\ UNCHANGED <<prog, exact>>
+          /\ obs' = ObsOf(P, db') /\ UNCHANGED prog
+PurgeInputRelations    == db' = Purged(db, InRels)  /\ obs' = ObsOf(P, db') /\ UNCHANGED <<prog, exact>>
+PurgeOutputRelations   == db' = Purged(db, OutRels) /\ obs' = ObsOf(P, db') /\ UNCHANGED <<prog, exact>>
+PurgeInternalRelations == db' = Purged(db, IntRels) /\ obs' = ObsOf(P, db') /\ UNCHANGED <<prog, exact>>
 
-\* ---- calls that only read (the last parameter is the value returned) -----
-Contains(r, t, b) == b = (t \in db[r]) /\ UNCHANGED vars
-Size(r, n)        == n = Cardinality(db[r]) /\ UNCHANGED vars
-Iterate(r, S)     == S = db[r] /\ UNCHANGED vars
-PrintAll(out)     == out = Outputs(db) /\ UNCHANGED vars
+\* ---- calls that only read: their results are obs / db of the state -------
+Contains(r, i) == r \in Rels /\ i \in 1..Len(P.probe[r]) /\ UNCHANGED vars    \* returns obs[r].has[i]
+Size(r)        == r \in Rels /\ UNCHANGED vars                                 \* returns obs[r].n
+Iterate(r)     == r \in Rels /\ UNCHANGED vars                                 \* enumerates db[r]
+PrintAll       == UNCHANGED vars                                               \* writes db[r] for r in OutRels
 
 Init == /\ prog \in 1..Len(Programs)
         /\ db = [r \in D!RelNames(Programs[prog]) |-> {}]
         /\ exact = TRUE
+        /\ obs = ObsOf(Programs[prog], db)
 
-Next == \/ \E r \in InRels : \E t \in Univ(r) : Insert(r, t)
-        \/ Run
-        \/ LoadAll
-        \/ RunAll
+Next == \/ \E r \in AllRels : \E t \in AllIns : Insert(r, t)
+        \/ Run \/ RunPrune \/ LoadAll \/ RunAll
         \/ PurgeInputRelations \/ PurgeOutputRelations \/ PurgeInternalRelations
-        \/ \E r \in Rels : \E t \in Probe(r) : \E b \in {t \in db[r]} : Contains(r, t, b)
-        \/ \E r \in Rels : \E n \in {Cardinality(db[r])} : Size(r, n)
-        \/ \E r \in Rels : \E S \in {db[r]} : Iterate(r, S)
-        \/ \E out \in {Outputs(db)} : PrintAll(out)
+        \/ \E r \in AllRels : \E i \in 1..MaxProbes : Contains(r, i)
+        \/ \E r \in AllRels : Size(r)
+        \/ \E r \in AllRels : Iterate(r)
+        \/ PrintAll
 
 Spec == Init /\ [][Next]_vars
 
@@ -120,6 +142,7 @@ Spec == Init /\ [][Next]_vars
 TypeOK == /\ DOMAIN db = Rels
           /\ \A r \in Rels : \A t \in db[r] : Len(t) = D!RelInfo(P, r).arity
           /\ exact \in BOOLEAN
+          /\ obs = ObsOf(P, db)
 \* Laws of the machine, for the evaluation m of the current state (one invariant so that TLC evaluates m once):
 \*  - the hand-written programs stay inside the defined value domain;
 \*  - run() only adds, and a second run() adds nothing;
